@@ -443,8 +443,14 @@ def run_deletes(w, state0, plan):
                         try: o = get(st[1]); x = get(st[3])
                         except NotImplementedError:
                             unloadable.append(st[1]); o = x = None
-                        if o is None or x is None: target_missing = True
-                        else: getattr(getattr(o, w.names[tuple(st[2])]), 'add' if st[0] == 'add' else 'remove')(x)
+                        key = tuple(st[2])
+                        # the program is resolved against what exists (a skipped create shifts the numbering; the shrinker drops creates):
+                        # the step applies only if object i really has that many-to-many attribute and object j is of its item class
+                        applicable = (o is not None and x is not None and st[1] < len(w.ents) and st[3] < len(w.ents)
+                                      and key in w.ent_attrs[w.ents[st[1]]] and w.side(key)['coll'] and w.side(w.rev(key))['coll']
+                                      and w.isa(w.ents[st[3]], w.side(w.rev(key))['ent']))
+                        if not applicable: target_missing = True
+                        else: getattr(getattr(o, w.names[key]), 'add' if st[0] == 'add' else 'remove')(x)
                     elif st[0] == 'load':
                         for i in st[1]:
                             try:
@@ -558,7 +564,8 @@ def _check_history(ctx, w, schema, prog, plan, state0, report):
     for st, grp, rec in zip(plan, groups, steps):
         if rec.get('kind') in ('add', 'rem'):
             i, key, j = st[1], tuple(st[2]), st[3]
-            if rec['target_missing'] or max(i, j) >= len(state): continue
+            if rec['target_missing'] or max(i, j) >= len(state):
+                ctx.count('m2m:step-not-applicable(object of another class / gone)'); continue
             if state[i]['alive'] and state[j]['alive']:
                 if rec['err'] is None:
                     rkey = w.rev(key)
